@@ -457,9 +457,9 @@ def generate(rng, tier):
     q = tier == "quick"
     cases = []
     # --- mesh bookkeeping
-    for _ in range(150 if q else 1500):
+    for _ in range(150 if q else 1000):
         cases.append(dict(kind="meshf", mesh=gen_mesh(rng, tier), rfft=rng.random() < 0.5))
-    for _ in range(150 if q else 1500):
+    for _ in range(150 if q else 1000):
         rfft = rng.random() < 0.6
         if rng.random() < 0.75:
             km, n0, c0 = kmesh_of(rng, tier, rfft)
@@ -470,17 +470,17 @@ def generate(rng, tier):
             cls, sh = gen_shape(rng, km["n"], None, rfft)
             cases.append(dict(kind="meshi", mesh=km, rfft=rfft, shape=sh, shape_cls=cls, n0=None, c0=None))
     # --- names
-    for _ in range(120 if q else 800):
+    for _ in range(120 if q else 600):
         cases.append(gen_names(rng))
     # --- spectra
     cap = 48 if q else 160
-    for _ in range(110 if q else 900):
+    for _ in range(110 if q else 600):
         op = rng.choice(["fftn", "rfftn"])
         nv = rng.choice([1, 1, 2, 3, 3, 4])
         m = gen_mesh(rng, tier, cap=cap // (1 if nv < 3 else 2))
         cases.append(dict(kind="fwd", op=op, mesh=m, nv=nv,
                           values=gen_values_spec(rng, real=(op == "rfftn" and rng.random() < 0.85))))
-    for _ in range(90 if q else 700):
+    for _ in range(90 if q else 450):
         op = rng.choice(["ifftn", "irfftn", "irfftn"])
         nv = rng.choice([1, 1, 2, 3])
         nd = rng.choice([1, 2, 2, 3, 3, 4])
@@ -496,7 +496,7 @@ def generate(rng, tier):
                 c["with_shape"] = "list"
         cases.append(c)
     # --- algebra (oracle only)
-    for _ in range(90 if q else 700):
+    for _ in range(90 if q else 500):
         nv = rng.choice([1, 2, 3, 3, 4])
         m = gen_mesh(rng, tier, cap=(64 if q else 256) // (1 if nv < 3 else 2))
         cases.append(dict(kind="algebra", mesh=m, nv=nv,
@@ -504,7 +504,7 @@ def generate(rng, tier):
                           values2=gen_values_spec(rng, real=rng.random() < 0.6, plain=True),
                           coef=[rng.randint(-8, 8) / 4.0, rng.randint(-8, 8) / 4.0]))
     # --- used, then changed in place, then transformed again
-    for _ in range(60 if q else 500):
+    for _ in range(60 if q else 350):
         nv = rng.choice([1, 1, 2, 3])
         nd = rng.choice([1, 2, 2, 3, 3])
         if nv == 3 and rng.random() < 0.5:
